@@ -143,8 +143,10 @@ func tokenize(expr string) ([]string, error) {
 			continue
 		}
 
-		// Handle multi-character operators
-		if i+1 < len(expr) {
+		// Handle multi-character operators. Only symbolic ones (==, !=, <>, >=, <=): the keyword
+		// operators OR / IS are read as words below, otherwise an identifier that merely starts
+		// with those letters (order_id, is_active, origin) is split into "or" + "der_id".
+		if i+1 < len(expr) && !isLetter(expr[i]) {
 			twoChar := expr[i : i+2]
 			if isOperator(twoChar) {
 				tokens = append(tokens, twoChar)
